@@ -8,7 +8,7 @@ PROP = "C04"
 def run(tier):
     rep = vlib.Report(PROP, tier)
     binary = vlib.build_harness()
-    common.mc_replay(rep, binary, PROP, "MC_C04", keyf=common.default_key)
+    d, cases, outs = common.mc_replay(rep, binary, PROP, "MC_C04", keyf=common.default_key)
     # the u24 maxima: 16 MiB bodies, evaluated by TLC on a lazily defined input, built by the harness from (header, filler)
     d2, res2, big = vlib.tlc_single(PROP, "u24", "MC_C04_U24", workers=1, heap="6g", timeout=600, out_name="cases.ndjson")
     rep.add_tlc("MC_C04_U24", res2)
@@ -21,6 +21,9 @@ def run(tier):
     # ... flights, extension blocks, DH and ECDH parameters, SCT lists), their tails and truncations, through 29 entry points:
     # the crate's answer is compared IN FULL with the answer TLC computes from the specification
     common.captures(rep, binary, PROP)
+    # (growth) inputs nobody chose: value-level mutations of TLC's accepted encodings and of the accepted captures (every field
+    # visits the middle of its range), the crate's answer compared with the one TLC computes from the specification
+    common.dfuzz(rep, binary, PROP, cases, 4000 if tier != "thorough" else 80000)
     return rep.finish("model_checking",
                       "cases = RFC encodings of ~700 abstract handshake values (17 variants, per-field boundary sets incl. "
                       "0/1/32/255/256/65535) with suffixes, each public body parser, every shortened hl of the small values, "
